@@ -12,6 +12,7 @@ structure ProxySt where
   cacheable : Bool := false
   firstMethod : Str := []
   firstRange : Bool := false
+  originAge : Str := []
 
 def splitColon (s : Str) : Option (Str × Str) :=
   match Str.splitOn ':' s with
@@ -24,13 +25,13 @@ def transportKeys : List Str :=
 
 def judgeProxy (st : ProxySt) (fields : List String) : ProxySt × String :=
   match fields with
-  | ["case", _i, rw, rq, rs, lq, ae, cc] =>
-    match parseList rw, parseList rq, parseList rs, unhex lq, unhex ae with
-    | some rw, some rq, some rs, some lq, some ae =>
+  | ["case", _i, rw, rq, rs, lq, ae, cc, oage] =>
+    match parseList rw, parseList rq, parseList rs, unhex lq, unhex ae, unhex oage with
+    | some rw, some rq, some rs, some lq, some ae, some oage =>
       match rw.mapM splitColon, rq.mapM splitColon, rs.mapM splitColon with
-      | some rw, some rq, some rs => ({ active := true, l := ⟨rq, rs, lq, rw⟩, upAE := ae, cacheable := cc = "1" }, "ok case 0")
+      | some rw, some rq, some rs => ({ active := true, l := ⟨rq, rs, lq, rw⟩, upAE := ae, cacheable := cc = "1", originAge := oage }, "ok case 0")
       | _, _, _ => (st, "BADLINE proxy case pairs")
-    | _, _, _, _, _ => (st, "BADLINE proxy case")
+    | _, _, _, _, _, _ => (st, "BADLINE proxy case")
   | ["hfpseq", a2, a3, aok, _axs, b2, b3, bok, _bxs] =>
     -- on a hit-for-pass key: the conditional client got its 304, the range client its 206, and the plain clients
     -- after them the full 200 response
@@ -48,7 +49,7 @@ def judgeProxy (st : ProxySt) (fields : List String) : ProxySt × String :=
         ++ (if !late ∧ (c1 < 500 ∨ c2 < 500) then " TRIP no_5xx" else "")
       (st, s!"ok hang 1{trip}")
     | _, _, _, _, _ => (st, "BADLINE proxy hang")
-  | ["req", no, m, path, rawq, hdr, body, "=>", up, code, xs, rhdr, rbody, restored, pathAfter, queryAfter] =>
+  | ["req", no, m, path, rawq, hdr, body, "=>", up, code, xs, rhdr, rbody, restored, pathAfter, queryAfter, rawSent] =>
     if !st.active then (st, "BADLINE proxy no case") else
     match unhex m, unhex path, unhex rawq, parseHeader hdr, unhex body, code.toNat?, unhex xs, parseHeader rhdr, unhex rbody with
     | some m, some path, some rawq, some h, some body, some code, some xs, some rh, some rbody =>
@@ -63,10 +64,12 @@ def judgeProxy (st : ProxySt) (fields : List String) : ProxySt × String :=
       let u := upstreamRequest fetching st.l st.upAE r
       let st' := if second then st else { st with firstMethod := m, firstRange := !(h.values "Range".toList).isEmpty }
       -- what the origin received
+      let upParts := up.splitOn "|"
+      let rawSeen : Str := ((upParts.getD 5 "").toList)
       let seen : Option (Option (Str × Str × Str × Str × Header)) :=
         if up = "-" then some none else if up = "multiple" then none else
-        match up.splitOn "|" with
-        | [a, b, c, d, e] => (do pure (some (← unhex a, ← unhex b, ← unhex c, ← unhex d, ← parseHeader e)))
+        match upParts with
+        | [a, b, c, d, e, _] => (do pure (some (← unhex a, ← unhex b, ← unhex c, ← unhex d, ← parseHeader e)))
         | _ => none
       match seen with
       | none => (st', "BADLINE proxy upstream part")
@@ -82,6 +85,8 @@ def judgeProxy (st : ProxySt) (fields : List String) : ProxySt × String :=
             (if sm ≠ m then " TRIP upstream_saw_diff:method" else "")
             ++ (if sb ≠ body then " TRIP upstream_saw_diff:body" else "")
             ++ (if st.l.rewrites.isEmpty ∧ sp ≠ path then " TRIP upstream_saw_diff:path" else "")
+            -- … and byte for byte as the client wrote it (an escaped reserved character stays escaped)
+            ++ (if st.l.rewrites.isEmpty ∧ rawSeen ≠ rawSent.toList then " TRIP upstream_saw_diff:path:escaping" else "")
             -- a `$k` of a rule's value that names one of the rule's wildcards never reaches the upstream verbatim
             ++ (if (st.l.rewrites.any fun (pat, value) =>
                     (List.range (pat.filter (· = '*')).length).any fun i =>
@@ -89,6 +94,8 @@ def judgeProxy (st : ProxySt) (fields : List String) : ProxySt × String :=
                       Str.contains tok value && Str.contains tok sp && !Str.contains tok path)
                 then " TRIP upstream_saw_diff:path:unsubstituted" else "")
             ++ (if !(Str.hasPrefix rawq sq) ∨ (st.l.query.isEmpty ∧ sq ≠ rawq) then " TRIP upstream_saw_diff:query" else "")
+            -- … followed by the parameters configured for THIS location and nothing else
+            ++ (if !st.l.query.isEmpty ∧ sq ≠ (if rawq.isEmpty then st.l.query else rawq ++ "&".toList ++ st.l.query) then " TRIP upstream_saw_diff:query:added" else "")
             ++ (if xs = "fetching".toList ∧ stripped.any (fun k => !(sh.values k).isEmpty ∧ !(st.l.reqHeaders.any (·.1 = k))) then " TRIP conditional_leaked" else "")
             ++ (if keys.any (fun k => !stripped.contains k ∧ k ≠ hAcceptEncoding ∧ !(st.l.reqHeaders.any (·.1 = k)) ∧ sh.values k ≠ h.values k) then " TRIP upstream_saw_diff:header" else "")
         let monResp : String :=
@@ -97,6 +104,9 @@ def judgeProxy (st : ProxySt) (fields : List String) : ProxySt × String :=
                 ∧ (h.values "Range".toList).isEmpty ∧ (h.values "If-Modified-Since".toList).isEmpty ∧ code ≠ 304 then " TRIP no_304" else "")
           ++ (if code = 200 ∧ st.l.respHeaders.any (fun kv => !(rh.values kv.1).contains kv.2) then " TRIP response_header_missing" else "")
           ++ (if code = 200 ∧ (rh.values "X-Origin".toList).take 2 ≠ ["o1".toList, "o2".toList] then " TRIP status_or_header_changed" else "")
+          -- the origin's own Age header is an end-to-end header of its answer: an answer that is not served from
+          -- pike's cache carries it unchanged
+          ++ (if code = 200 ∧ xs ≠ "hit".toList ∧ !st.originAge.isEmpty ∧ rh.values "Age".toList ≠ [st.originAge] then " TRIP status_or_header_changed" else "")
         -- model agreement
         let agreeUp : Bool := match seen with
           | none => hit
